@@ -268,3 +268,37 @@ func Uint32s(t *rapid.T, label string, max int) []uint32 {
 	}
 	return out
 }
+
+// WLOpts shapes wordlist-recipe generation.
+type WLOpts struct {
+	List        WordListOpts
+	MaxLen      int
+	SmallSep    bool
+	AllowScript bool
+	UnknownCap  bool
+}
+
+// WL draws a wordlist recipe.
+func WL(t *rapid.T, o WLOpts) WLSpec {
+	return WLSpec{
+		Words:  WordList(t, o.List),
+		Length: rapid.IntRange(1, o.MaxLen).Draw(t, "wl_length"),
+		Scheme: Scheme(t, o.UnknownCap),
+		Sep:    Sep(t, o.SmallSep, o.AllowScript),
+	}
+}
+
+// Perm draws a reordering-with-repetition of n items that covers every item:
+// a permutation followed by extra repeats, then shuffled by a second
+// permutation.
+func Perm(t *rapid.T, n int, label string) []int {
+	idx := make([]int, n)
+	for i := range idx {
+		idx[i] = i
+	}
+	extra := rapid.IntRange(0, 3).Draw(t, label+"_extra")
+	for i := 0; i < extra; i++ {
+		idx = append(idx, rapid.IntRange(0, n-1).Draw(t, label+"_dup"))
+	}
+	return rapid.Permutation(idx).Draw(t, label)
+}
